@@ -34,7 +34,7 @@ theorem inv_sdret {s : St} (h : Inv s) (c : Nat) (hsd : s.sd = .done) : Inv (emi
   inv_emit_neutral _ h (invT_sdret h.1 h.2.1 h.2.2 c hsd)
 
 /-- Every step of every thread preserves the invariant. -/
-theorem inv_step {s s' : St} {t t' : Th} (h : Inv s) (hs : (s', t') ∈ step true s t) : Inv s' := by
+theorem inv_step {s s' : St} {t t' : Th} (h : Inv s) (hs : (s', t') ∈ step true true s t) : Inv s' := by
   obtain ⟨hA, hB, hT⟩ := h
   cases t with
   | bw c name order pc =>
@@ -122,21 +122,14 @@ theorem inv_step {s s' : St} {t t' : Th} (h : Inv s) (hs : (s', t') ∈ step tru
       obtain ⟨rfl, _⟩ := hs
       exact inv_startCrit ⟨hA, hB, hT⟩
     | started =>
-      simp only [step, List.mem_singleton, Prod.mk.injEq] at hs
-      obtain ⟨rfl, _⟩ := hs
-      exact inv_emit_neutral _ ⟨hA, hB, hT⟩ (invT_runsnap hT c)
-    | waiting keys =>
-      cases keys with
-      | nil =>
-        simp only [step, List.mem_singleton, Prod.mk.injEq] at hs
+      simp only [step, if_true] at hs
+      split at hs
+      · simp only [List.mem_singleton, Prod.mk.injEq] at hs
         obtain ⟨rfl, _⟩ := hs
         exact inv_emit_neutral _ ⟨hA, hB, hT⟩ (invT_runret hT c)
-      | cons k ks =>
-        simp only [step, List.mem_map] at hs
-        obtain ⟨o, _, heq⟩ := hs
-        injection heq with h1 _
-        subst h1
-        exact ⟨hA, hB, hT⟩
+      · simp at hs
+    | waiting keys =>
+      cases keys <;> simp [step] at hs
     | fin => simp [step] at hs
   | watcher =>
     simp only [step] at hs
@@ -148,8 +141,8 @@ theorem inv_step {s s' : St} {t t' : Th} (h : Inv s) (hs : (s', t') ∈ step tru
     · simp at hs
 
 /-- The invariant holds in every configuration reachable from a fresh daemon, whatever the thread pool. -/
-theorem inv_reach {ts ts' : List Th} {s : St} (hr : Reach (sys true) (init, ts) (s, ts')) : Inv s := by
-  have := inv_induction (S := sys true) (fun c => Inv c.1) (c0 := (init, ts)) (c := (s, ts')) inv_init
+theorem inv_reach {ts ts' : List Th} {s : St} (hr : Reach (sys true true) (init, ts) (s, ts')) : Inv s := by
+  have := inv_induction (S := sys true true) (fun c => Inv c.1) (c0 := (init, ts)) (c := (s, ts')) inv_init
     (by
       intro a b ha hstep
       cases hstep with
